@@ -72,10 +72,7 @@ theorem failSession_A (c : Cfg) (s : St) (h : A s) : A (failSession c s).2 := by
   · exact h
   · have h1 := sendSession_A s { id := c.sid, from_ := c.node, to := s.remote, state := .failed, hasReason := true } h (by simp)
     have h2 := setState_A _ .failed h1
-    simp only
-    split
-    · exact A_same ((setState _ .failed).log .close) _ rfl rfl (A_log _ _ h2 (by intros; simp) (by intros; simp))
-    · exact h2
+    exact A_same ((setState _ .failed).log .close) _ rfl rfl (A_log _ _ h2 (by intros; simp) (by intros; simp))
 
 theorem callAuth_A (s : St) (ses : Ses) (out : AuthOut) (h : A s) : A (callAuth s ses out) := by
   refine ⟨?_, ?_⟩
@@ -185,8 +182,7 @@ theorem failSession_N (c : Cfg) (s : St) (h : N s) : N (failSession c s).2 := by
   split
   · exact h
   · have h1 := sendSession_N s { id := c.sid, from_ := c.node, to := s.remote, state := .failed, hasReason := true } h (by simp)
-    simp only
-    split <;> (unfold N at *; simpa [appliedRev] using h1)
+    unfold N at *; simpa [appliedRev] using h1
 
 /-- a successful confirmation leaves the transport on the confirmed encryption, and that
 confirmation is the newest one in the trace -/
